@@ -107,6 +107,8 @@ def check(ck):
         fb = [n for n in walk_no_nested(c.node) if isinstance(n, ast.If) and unparse(n.test) == "query_cache_decorator is UNDEFINED_VALUE"]
         ck.ob("Engine.cook: an unspecified decorator falls back to the engine's own", len(fb) == 1 and unparse(fb[0].body[0]) == "query_cache_decorator = self._query_cache_decorator", c,
               fb[0] if fb else c.node, construct="config:fallback")
+    with ck.rule("R5"):
+        _r5(ck, repo, ph)
     with ck.rule("R4"):
         cv = repo.func("tartiflette/types/exceptions/tartiflette.py", "TartifletteError.coerce_value")
         stores = [s for s in write_sites(cv) if s.root == "self"]
@@ -126,6 +128,21 @@ def check(ck):
         b = repo.func("tartiflette/execution/response.py", "build_response")
         muts = [s for s in write_sites(b) if s.root == b.positional_params[2]]
         ck.ob("build_response does not mutate the error list it renders", not muts, b, muts[0].node if muts else b.node, construct="render:build-response")
+
+
+def _r5(ck, repo, ph):
+    """The cached value (document, validation errors) is not mutated by the requests served from it:
+    the EXEC-phase effect census of C15 (a document or error list written after the cache lookup makes
+    the next hit answer differently from a miss)."""
+    from . import c15
+    sites = ph.sites(ph.exec_set)
+    c15.r1(ck, ph, sites)
+    c15.r2(ck, ph, sites)
+    b = repo.func("tartiflette/execution/context.py", "build_execution_context")
+    binds = [n for n in walk_no_nested(b.node) if isinstance(n, (ast.Assign, ast.AnnAssign)) and unparse(n.targets[0] if isinstance(n, ast.Assign) else n.target) == "errors"]
+    from ..effects import is_fresh_expr
+    ck.ob("build_execution_context collects request errors in a fresh list (not in a list owned by the cached document)", bool(binds) and all(is_fresh_expr(x.value) for x in binds), b,
+          binds[0] if binds else b.node, construct="cached-value:errors-fresh")
 
 
 def _chain(e):
